@@ -7,6 +7,7 @@ import (
 	"github.com/remieven/ysgo/markup"
 	"github.com/remieven/ysgo/verifharness/core"
 	"github.com/remieven/ysgo/verifharness/gen"
+	"github.com/remieven/ysgo/verifharness/model"
 	"github.com/remieven/ysgo/verifharness/mon"
 )
 
@@ -18,7 +19,9 @@ func init() { core.Register(c14{}) }
 func (c14) ID() string { return "C14" }
 
 // EvalFeatures names the counters of judged executions.
-func (c14) EvalFeatures() []string { return []string{"pairs", "dialogue-prefixes-compared"} }
+func (c14) EvalFeatures() []string {
+	return []string{"pairs", "dialogue-prefixes-compared", "interpolation-only-showings-compared", "dialogue-options-compared"}
+}
 
 func (c14) Cases(tier string) int {
 	if tier == "thorough" {
@@ -29,24 +32,28 @@ func (c14) Cases(tier string) int {
 
 func (c14) Thresholds(tier string) map[string]int64 {
 	return map[string]int64{
-		"pairs":                           25000,
-		"history-length>=4":               8000,
-		"history-with-failing-line":       8000,
-		"history-with-failure-mid-marker": 1000,
-		"history-with-replacement-marker": 4000,
-		"probe-has-attributes":            10000,
-		"probe-is-failing-line":           2000,
-		"attributes-compared":             30000,
-		"dialogues":                       1200,
-		"dialogue-prefixes-compared":      3000,
-		"dialogue-prefix-with-error":      300,
-		"probe-repeats-a-history-line":    3000,
-		"veteran-parser-comparisons":      25000,
+		"pairs":                                      25000,
+		"history-length>=4":                          8000,
+		"history-with-failing-line":                  8000,
+		"history-with-failure-mid-marker":            1000,
+		"history-with-replacement-marker":            4000,
+		"probe-has-attributes":                       10000,
+		"probe-is-failing-line":                      2000,
+		"attributes-compared":                        30000,
+		"dialogues":                                  1200,
+		"dialogue-prefixes-compared":                 3000,
+		"dialogue-prefix-with-error":                 300,
+		"probe-repeats-a-history-line":               3000,
+		"veteran-parser-comparisons":                 25000,
+		"earlier-results-with-attributes-rechecked":  50000,
+		"dialogue-options-compared":                  5000,
+		"dialogue-lines-rechecked-after-later-lines": 5000,
+		"interpolation-only-showings-compared":       4000,
 	}
 }
 
 func (c14) Rule() string {
-	return "case = 20 pairs (history, probe line) on one parser value each: the history is 0-8 lines drawn from the well-formed generator of C13 and from the hostile generators of C15 (so histories contain failing parses, including parses that fail after markers were already read and lines with open-form replacement markers of different names), the probe is a well-formed or a hostile line, one time in four a line of the history again (the last one, or an earlier one); every probe is also parsed on a parser value that lives through the whole case (about a hundred lines, several hundred markers); plus one dialogue in which the same marked-up probe line is reached through 3 different prefixes (different options with marked-up lines, one prefix containing a line whose markup fails). Oracle: ParseMarkup(probe) on the used parser value equals ParseMarkup(probe) on a fresh value - error/no error, Text, and every attribute incl. Position, Length, properties and SourcePosition; in the dialogue, the probe line's Text and Attributes are equal across prefixes and equal to the fresh-parser result. Non-trivial: the history is non-empty and the probe has >=1 attribute. Distinct by hash of history+probe."
+	return "case = 20 pairs (history, probe line) on one parser value each: the history is 0-8 lines drawn from the well-formed generator of C13 and from the hostile generators of C15 (so histories contain failing parses, including parses that fail after markers were already read and lines with open-form replacement markers of different names), the probe is a well-formed or a hostile line, one time in four a line of the history again (the last one, or an earlier one); every probe is also parsed on a parser value that lives through the whole case (about a hundred lines, several hundred markers); plus one dialogue in which the same marked-up probe line is reached through 3 different prefixes (different options with marked-up lines, one prefix containing a line whose markup fails). Oracle: ParseMarkup(probe) on the used parser value equals ParseMarkup(probe) on a fresh value - error/no error, Text, and every attribute incl. Position, Length, properties and SourcePosition; in the dialogue, the probe line's Text and Attributes are equal across prefixes and equal to the fresh-parser result. Results stay the caller's: every result returned for a history line (on both parser values) is deep-copied at return and compared with itself after the probe was parsed, and every line returned by the dialogue is compared with its copy after the later lines were shown; the two marked-up options of the dialogue's group each equal the fresh-parser result of their own text. A second dialogue shows a line and an option that consist of one inline expression only ({$m}) three times with different host-supplied values: each showing carries the text and attributes of the value it has then. Non-trivial: the history is non-empty and the probe has >=1 attribute. Distinct by hash of history+probe."
 }
 
 func (c14) Assumptions() []string {
@@ -84,16 +91,23 @@ func (p c14) Run(c *core.Ctx) {
 	// one parser value lives through the whole case (about 100 lines and several hundred markers): every
 	// probe is also parsed on it
 	var veteran markup.LineParser
+	var kept []keptResult
 	for i := 0; i < 20; i++ {
 		var used markup.LineParser
 		n := r.Range(0, 8)
 		var hist []string
 		failing, midFail, repl := false, false, false
+		kept = kept[:0]
 		for k := 0; k < n; k++ {
 			l, kind := c14Line(c)
 			hist = append(hist, l)
-			parseDirect(&veteran, l)
-			_, err, pan := parseDirect(&used, l)
+			if vres, verr, vpan := parseDirect(&veteran, l); verr == nil && vpan == "" {
+				kept = append(kept, keptResult{vres, copyResult(vres), l, "a parser value that has parsed about a hundred lines"})
+			}
+			hres, err, pan := parseDirect(&used, l)
+			if err == nil && pan == "" {
+				kept = append(kept, keptResult{hres, copyResult(hres), l, "the parser value of this history"})
+			}
 			if pan != "" {
 				c.Violate("ParseMarkup panicked on a history line", map[string]any{"line_quoted": fmt.Sprintf("%q", l), "panic": pan})
 				return
@@ -128,6 +142,19 @@ func (p c14) Run(c *core.Ctx) {
 		}
 		c.Feature("veteran-parser-comparisons")
 		c.Feature("pairs")
+		// results handed out earlier belong to the caller: parsing further lines must not change them
+		for _, k := range kept {
+			c.Feature("earlier-results-rechecked")
+			if len(k.copy.Attributes) > 0 {
+				c.Feature("earlier-results-with-attributes-rechecked")
+			}
+			if !resultEqual(k.copy, k.res) {
+				c.Violate("a result returned earlier changed when the same parser value parsed further lines", map[string]any{
+					"line_quoted": fmt.Sprintf("%q", k.line), "parser": k.parser, "probe_quoted": fmt.Sprintf("%q", probe),
+					"as_returned": describeWithSource(k.copy), "now": describeWithSource(k.res), "text_as_returned": k.copy.Text, "text_now": k.res.Text})
+				return
+			}
+		}
 		if n >= 4 {
 			c.Feature("history-length>=4")
 		}
@@ -182,6 +209,12 @@ func (p c14) Run(c *core.Ctx) {
 	p.dialogue(c)
 }
 
+type keptResult struct {
+	res, copy *markup.ParseResult
+	line      string
+	parser    string
+}
+
 func describeWithSource(res *markup.ParseResult) []string {
 	d := describeGot(res)
 	for i, a := range res.Attributes {
@@ -203,7 +236,8 @@ func (c14) dialogue(c *core.Ctx) {
 	}
 	probe := safe()
 	a1, b1, b2, optA := safe(), safe(), safe(), safe()
-	script := "title: Start\n---\n-> " + optA.Src + "\n    " + a1.Src + "\n-> plain option\n    " + b1.Src + "\n    " + b2.Src + "\n-> failing prefix\n    before [b]x[/b] [oops\n-> empty\n" + probe.Src + "\n===\n"
+	optB := safe()
+	script := "title: Start\n---\n-> " + optA.Src + "\n    " + a1.Src + "\n-> " + optB.Src + "\n    " + b1.Src + "\n    " + b2.Src + "\n-> failing prefix\n    before [b]x[/b] [oops\n-> empty\n" + probe.Src + "\n===\n"
 	var fresh markup.LineParser
 	want, werr, _ := parseDirect(&fresh, probe.Src)
 	if werr != nil {
@@ -222,6 +256,22 @@ func (c14) dialogue(c *core.Ctx) {
 			c.Violate("the option group of the dialogue was not shown: "+o.String(), map[string]any{"readers": []string{script}})
 			return
 		}
+		// every option of the group carries the attributes of its own text
+		for k, src := range []string{optA.Src, optB.Src} {
+			var f markup.LineParser
+			ow, oerr, _ := parseDirect(&f, src)
+			if oerr != nil || k >= len(o.Opts) {
+				continue
+			}
+			og := &markup.ParseResult{Text: o.Opts[k].Text, Attributes: o.Opts[k].Attrs}
+			c.Feature("dialogue-options-compared")
+			if !resultEqual(ow, og) {
+				c.Violate("the attributes of an option shown by a dialogue depend on the other options of its group", map[string]any{
+					"readers": []string{script}, "option": k, "fresh_attributes": describeWithSource(ow), "dialogue_attributes": describeWithSource(og)})
+				return
+			}
+		}
+		var shown []keptResult
 		var last mon.Obs
 		sawErr := false
 		for step := 0; step < 8; step++ {
@@ -239,6 +289,16 @@ func (c14) dialogue(c *core.Ctx) {
 				break
 			}
 			last = o
+			res := &markup.ParseResult{Text: o.Text, Attributes: o.Attrs}
+			shown = append(shown, keptResult{res, copyResult(res), o.Text, "the dialogue runner"})
+		}
+		for _, k := range shown {
+			c.Feature("dialogue-lines-rechecked-after-later-lines")
+			if !resultEqual(k.copy, k.res) {
+				c.Violate("a line returned by the dialogue changed when later lines were shown", map[string]any{
+					"readers": []string{script}, "trace": trace, "as_returned": describeWithSource(k.copy), "now": describeWithSource(k.res)})
+				return
+			}
 		}
 		if sawErr {
 			c.Feature("dialogue-prefix-with-error")
@@ -256,4 +316,66 @@ func (c14) dialogue(c *core.Ctx) {
 		}
 	}
 	c.Feature("dialogues")
+
+	// a line that consists of one inline expression only, shown several times with different values:
+	// what is parsed is the text of THIS showing
+	vals := []string{safe().Src, gen.Markup(r).Src, safe().Src}
+	if r.Chance(1, 4) {
+		vals[1] = vals[0]
+	}
+	loop := "title: Start\n---\n<<jump Show>>\n===\ntitle: Show\n---\n{$m}\n-> {$m}\n    <<set $k to $k + 1>>\n<<if $k == 1>>\n<<set $m to $m1>>\n<<jump Show>>\n<<elseif $k == 2>>\n<<set $m to $m2>>\n<<jump Show>>\n<<endif>>\n===\n"
+	st := mon.NewRecStorer()
+	st.HostSet("m", model.S(vals[0]))
+	st.HostSet("m1", model.S(vals[1]))
+	st.HostSet("m2", model.S(vals[2]))
+	st.HostSet("k", model.N(0))
+	rr, err, pan := mon.Create(st, "", []string{loop})
+	if err != nil || pan != "" {
+		c.Violate("the interpolation-only dialogue failed to load", map[string]any{"readers": []string{loop}, "error": fmt.Sprint(err), "panic": pan})
+		return
+	}
+	var trace []string
+	for round := 0; round < 3; round++ {
+		var f markup.LineParser
+		want, werr, _ := parseDirect(&f, vals[round])
+		for _, what := range []string{"line", "option"} {
+			o := rr.Next(0)
+			trace = append(trace, o.String())
+			if o.Kind == mon.KPanic {
+				c.Violate("Next panicked in the interpolation-only dialogue", map[string]any{"readers": []string{loop}, "values": vals, "trace": trace})
+				return
+			}
+			if werr != nil {
+				if o.Kind != mon.KErr {
+					c.Violate("a line whose text fails to parse was shown by the dialogue: "+o.String(), map[string]any{"readers": []string{loop}, "values": vals, "trace": trace})
+					return
+				}
+				if what == "option" {
+					// the failed option group was skipped or not: either way go on with the next round by hand
+					st.HostSet("k", model.N(float64(round+1)))
+				}
+				continue
+			}
+			var got *markup.ParseResult
+			switch {
+			case what == "line" && o.Kind == mon.KLine:
+				got = &markup.ParseResult{Text: o.Text, Attributes: o.Attrs}
+			case what == "option" && o.Kind == mon.KOptions && len(o.Opts) == 1:
+				got = &markup.ParseResult{Text: o.Opts[0].Text, Attributes: o.Opts[0].Attrs}
+			default:
+				c.Violate(fmt.Sprintf("round %d of the interpolation-only dialogue: want the %s, got %s", round, what, o), map[string]any{"readers": []string{loop}, "values": vals, "trace": trace})
+				return
+			}
+			c.Feature("interpolation-only-showings-compared")
+			if !resultEqual(want, got) {
+				c.Violate("a line made of one inline expression does not carry the text and attributes of the value it has at this showing", map[string]any{
+					"readers": []string{loop}, "values": vals, "round": round, "element": what, "trace": trace, "fresh_text": want.Text, "dialogue_text": got.Text,
+					"fresh_attributes": describeWithSource(want), "dialogue_attributes": describeWithSource(got)})
+				return
+			}
+		}
+		if werr != nil {
+			break
+		}
+	}
 }
